@@ -13,13 +13,20 @@ ASSUMPTIONS = [
     "named elements is then applied to the copy, one at a time",
     "base netlists: reader-built from the independent writers' texts (EDIF E1/E2/E3, Verilog base, EBLIF B1)",
 ]
-SOURCES = ("edif:E1", "edif:E2", "edif:E3", "edif:E7", "edif:E1+api", "verilog", "eblif:B1")
+SOURCES = ("edif:E1", "edif:E2", "edif:E3", "edif:E7", "edif:E1+api", "edif:E2+uniquify", "edif:E5+flatten", "verilog", "eblif:B1")
 
 
 def load(src):
     kind, _, which = src.partition(":")
     if kind == "edif":
         n = c05.parse_text(edif_writer.render(fdesigns.BASES[which.split("+")[0]]()))
+        if which.endswith("+uniquify") or which.endswith("+flatten"):
+            # the comparison follows a transformation (a tool compares what it wrote with what it holds)
+            from spydrnet.uniquify import uniquify
+            from spydrnet.flatten import flatten
+            uniquify(n)
+            if which.endswith("+flatten"):
+                flatten(n)
         if which.endswith("+api"):
             # a netlist read from EDIF (EDIF policy) and then extended through the API, whose new elements are
             # created under the policy the reader restored
@@ -153,11 +160,12 @@ def worker(case):
     tag = src.split(":")[0]
     if what == "copies":
         nq = 0
-        b, _ = load(src)
-        r = compare(a, b)
-        nq += 1
-        if r:
-            probs.append(("equal-netlists-rejected:parsed-twice:%s:%s" % (tag, r), "two parses of the same text compare unequal"))
+        if "+uniquify" not in src and "+flatten" not in src:   # (generated names differ between two transformations)
+            b, _ = load(src)
+            r = compare(a, b)
+            nq += 1
+            if r:
+                probs.append(("equal-netlists-rejected:parsed-twice:%s:%s" % (tag, r), "two parses of the same text compare unequal"))
         r = compare(a, a.clone())
         nq += 1
         if r:
@@ -205,7 +213,10 @@ def worker(case):
                         probs.append(("equal-netlists-rejected:after-refused-renames:%s:%s" % (tag, r), "refused renames on the %s side (%d refused)" % ("looked-up" if who == "copy" else "walked", refused)))
         return {"key": core.digest(case), "nontrivial": True, "outcome": "copies", "problems": probs, "transitions": nq}
     idx = case[2]
-    b, _ = load(src)
+    if "+uniquify" in src or "+flatten" in src:
+        b = a.clone()        # (a second transformation would generate other names)
+    else:
+        b, _ = load(src)
     muts = mutations(b)
     if idx >= len(muts):
         return {"key": core.digest(case), "nontrivial": False, "outcome": "no-such-mutation", "problems": [], "transitions": 0}
